@@ -86,6 +86,34 @@ func NewMemReach(fn *ssa.Function) *MemReach {
 			}
 		}
 	}
+	// Fallback for cells that are not eligible (written by closures, e.g. the result
+	// cell of a function containing a range-over-func loop): a load is resolved when a
+	// store to the same cell precedes it in the same block with no call in between.
+	defer func() {
+		for _, b := range fn.Blocks {
+			last := map[ssa.Value]ssa.Value{}
+			for _, ins := range b.Instrs {
+				switch x := ins.(type) {
+				case *ssa.Store:
+					if _, ok := x.Addr.(*ssa.Alloc); ok {
+						last[x.Addr] = x.Val
+					}
+				case ssa.CallInstruction:
+					for k := range last {
+						delete(last, k)
+					}
+				case *ssa.UnOp:
+					if x.Op == token.MUL {
+						if _, done := mr.resolved[x]; !done {
+							if v, ok := last[x.X]; ok {
+								mr.resolved[x] = v
+							}
+						}
+					}
+				}
+			}
+		}
+	}()
 	if len(cells) == 0 {
 		return mr
 	}
